@@ -584,6 +584,19 @@ impl<'a> ExpandedSelection<'a> {
                 .map(|variant| variant.render())
                 .collect();
 
+            // A selection on a concrete type can end up without any field (only
+            // `__typename` selected, or every selected field denied as deprecated): that is
+            // an empty struct, not an enum without variants, which no payload could match.
+            if fields.peek().is_none() && on_variants.is_empty() {
+                let item = quote! {
+                    #response_derives
+                    #[serde(crate = #serde_path)]
+                    pub struct #struct_name {}
+                };
+                items.push(item);
+                continue;
+            }
+
             // If we only have an `on` field, turn the struct into the enum
             // of the variants.
             if fields.peek().is_none() {
